@@ -481,7 +481,7 @@ def parse_model(rep, C, Q, N):
 # ------------------------------------------------------------------------------------------- K
 def run(ctx):
     j = J()
-    n = ctx.scale(20, 160)
+    n = ctx.scale(16, 160)
     fixed = [
         # etched device over a background slab, history of 3 (the reset to the backup matters)
         {"N": [4, 3, 4], "bg": {"mat": {"eps": 4.0}, "lo": 1, "thick": 2}, "jit": False,
